@@ -111,6 +111,7 @@ structure InvX (o : MapOps M) (c : Cfg) (xb xt : Option (Str × Str)) (xh : List
   hb    : c.noClear = false → ∀ n r k, o.get s.locks n = some r → k ∈ r.keys →
             (∃ sid, booked s sid ⟨n, k, r.size⟩) ∨ (n, k) ∈ xh
   xhfree : ∀ p ∈ xh, ∀ sid h, booked s sid h → pairOf h ≠ p
+  xhheld : ∀ p ∈ xh, held o s p.1 p.2
   fs    : ∀ sid, AMap.get s.file sid = AMap.get s.sessions sid ∨
                  (AMap.get s.file sid = none ∧ AMap.get s.sessions sid = some [])
 
@@ -125,7 +126,7 @@ structure Equiv (o : MapOps M) (s s' : St M) : Prop where
 theorem InvX.congr {xb xt xh} {s s' : St M} (h : InvX o c xb xt xh s) (e : Equiv o s s') : InvX o c xb xt xh s' := by
   have hheld : ∀ n k, held o s' n k ↔ held o s n k := by intro n k; unfold held; rw [e.locks]
   have hbook : ∀ sid x, booked s' sid x ↔ booked s sid x := fun sid x => booked_congr e.sessions sid x
-  refine ⟨?_, ?_, ?_, ?_, ?_, ?_, ?_, ?_, ?_⟩
+  refine ⟨?_, ?_, ?_, ?_, ?_, ?_, ?_, ?_, ?_, ?_⟩
   · intro n r hg; rw [e.locks] at hg; rw [e.nreq]; exact h.recs n r hg
   · intro n r hg; rw [e.locks] at hg; exact h.qsize n r hg
   · intro tk tm hm; rw [e.timers] at hm; rw [hheld]; exact h.timer tk tm hm
@@ -134,18 +135,19 @@ theorem InvX.congr {xb xt xh} {s s' : St M} (h : InvX o c xb xt xh s) (e : Equiv
   · intro sid hs hg; rw [e.sessions] at hg; exact h.u2 sid hs hg
   · intro hn n r k hg hk; rw [e.locks] at hg; simp only [hbook]; exact h.hb hn n r k hg hk
   · intro p hp sid x hb; rw [hbook] at hb; exact h.xhfree p hp sid x hb
+  · intro p hp; rw [hheld]; exact h.xhheld p hp
   · intro sid; rw [e.file, e.sessions]; exact h.fs sid
 
 /-- weakening the exemptions -/
 theorem InvX.weaken_t {xb xt xh} {s : St M} (h : InvX o c xb none xh s) : InvX o c xb xt xh s :=
   ⟨h.recs, h.qsize,
    fun tk tm hm => ⟨(h.timer tk tm hm).1, (h.timer tk tm hm).2.elim Or.inl (fun x => by cases x)⟩,
-   h.bh, h.u1, h.u2, h.hb, h.xhfree, h.fs⟩
+   h.bh, h.u1, h.u2, h.hb, h.xhfree, h.xhheld, h.fs⟩
 
 theorem InvX.weaken_b {xb xt xh} {s : St M} (h : InvX o c none xt xh s) : InvX o c xb xt xh s :=
   ⟨h.recs, h.qsize, h.timer,
    fun sid x hbk => (h.bh sid x hbk).elim Or.inl (fun x => by cases x),
-   h.u1, h.u2, h.hb, h.xhfree, h.fs⟩
+   h.u1, h.u2, h.hb, h.xhfree, h.xhheld, h.fs⟩
 
 /-! ### frame: fields no component reads -/
 
@@ -154,7 +156,7 @@ theorem InvX.frame {xb xt xh} {s s' : St M} (h : InvX o c xb xt xh s)
     (e4 : s'.file = s.file) (e5 : s.nreq ≤ s'.nreq) : InvX o c xb xt xh s' := by
   have hheld : ∀ n k, held o s' n k ↔ held o s n k := fun n k => held_congr e1 n k
   have hbook : ∀ sid x, booked s' sid x ↔ booked s sid x := fun sid x => booked_congr e3 sid x
-  refine ⟨?_, ?_, ?_, ?_, ?_, ?_, ?_, ?_, ?_⟩
+  refine ⟨?_, ?_, ?_, ?_, ?_, ?_, ?_, ?_, ?_, ?_⟩
   · intro n r hg; rw [e1] at hg
     have := h.recs n r hg
     exact ⟨this.nodup, fun k hk => by obtain ⟨i, hi, e⟩ := this.fresh k hk; exact ⟨i, by omega, e⟩⟩
@@ -165,6 +167,7 @@ theorem InvX.frame {xb xt xh} {s s' : St M} (h : InvX o c xb xt xh s)
   · intro sid hs hg; rw [e3] at hg; exact h.u2 sid hs hg
   · intro hn n r k hg hk; rw [e1] at hg; simp only [hbook]; exact h.hb hn n r k hg hk
   · intro p hp sid x hb; rw [hbook] at hb; exact h.xhfree p hp sid x hb
+  · intro p hp; rw [hheld]; exact h.xhheld p hp
   · intro sid; rw [e4, e3]; exact h.fs sid
 
 end Ldlm.Core
@@ -242,7 +245,7 @@ theorem InvX.grant (ho : o.Lawful) {xb xt xh} {s s1 : St M} (h : InvX o c xb xt 
       rw [e1] at hg; rw [e2] at hkk
       exact hknew ((hheld k).mp ⟨r0, hg, hkk⟩)
     · rw [hp] at hx; exact hxb hx
-  refine ⟨?_, ?_, ?_, ?_, ?_, ?_, ?_, ?_, ?_⟩
+  refine ⟨?_, ?_, ?_, ?_, ?_, ?_, ?_, ?_, ?_, ?_⟩
   · intro n' r hg
     rw [nreq_book]
     rw [hlocks] at hg
@@ -325,12 +328,17 @@ theorem InvX.grant (ho : o.Lawful) {xb xt xh} {s s1 : St M} (h : InvX o c xb xt 
     rcases hb' with hb' | ⟨_, e⟩
     · exact h.xhfree p hp sid' h' hb'
     · rw [e]; intro hpe; apply hxh; rw [← hpe] at hp; exact hp
+  · intro p hp; exact hmono _ _ (h.xhheld p hp)
   · intro sid'; left; rw [file_book]
 
 end Ldlm.Core
 
 namespace Ldlm.Core
 variable {M : Type} {o : MapOps M} {c : Cfg}
+
+theorem mem_filter_ne {xh : List (Str × Str)} {p q : Str × Str} :
+    p ∈ xh.filter (· ≠ q) ↔ p ∈ xh ∧ p ≠ q := by
+  rw [List.mem_filter]; simp
 
 /-- replacing the record of `n` by one with the same key set and size (idle-clock update, creation
 of an empty record, enqueue, dequeue) -/
@@ -348,7 +356,7 @@ theorem InvX.setSame (ho : o.Lawful) {xb xt xh} {s s1 : St M} (h : InvX o c xb x
     · subst e; simp [hkeys]
     · simp [e]
   have hbk : ∀ sid x, booked s1 sid x ↔ booked s sid x := fun sid x => booked_congr hs sid x
-  refine ⟨?_, ?_, ?_, ?_, ?_, ?_, ?_, ?_, ?_⟩
+  refine ⟨?_, ?_, ?_, ?_, ?_, ?_, ?_, ?_, ?_, ?_⟩
   · intro n' r hg; rw [hl] at hg
     rcases get_set_cases ho hg with ⟨_, e⟩ | hg'
     · rw [e]; exact hok
@@ -379,17 +387,19 @@ theorem InvX.setSame (ho : o.Lawful) {xb xt xh} {s s1 : St M} (h : InvX o c xb x
       rw [← hsz r0 hg0]; exact h.hb hnc n r0 k' hg0 hk0
     · exact h.hb hnc n' r k' hg' hk'
   · intro p hp sid x hb'; rw [hbk] at hb'; exact h.xhfree p hp sid x hb'
+  · intro p hp; rw [hheld']; exact h.xhheld p hp
   · intro sid; rw [hf, hs]; exact h.fs sid
 
 /-- removing key `k` from lock `n` (the atomic decision point of `Unlock`): afterwards the pair is
 a zombie for the bookkeeping and for its lease timer until those are cleaned up -/
-theorem InvX.unkey (ho : o.Lawful) {xb' xh} {s s1 : St M} (h : InvX o c none none xh s)
+theorem InvX.unkey (ho : o.Lawful) {xb' xt' xh} {s s1 : St M} (h : InvX o c none none xh s)
     {n k : Str} {r0 r' : LockRec} (hg0 : o.get s.locks n = some r0) (hk0 : k ∈ r0.keys)
     (hl : s1.locks = o.set s.locks n r') (ht : s1.timers = s.timers) (hs : s1.sessions = s.sessions)
     (hf : s1.file = s.file) (hn : s1.nreq = s.nreq)
     (hkeys : r'.keys = r0.keys.erase k) (hsz : r'.size = r0.size) (hq : r'.q = r0.q)
-    (hxb : xb' = some (n, k) ∨ (n, k) ∈ xh) :
-    InvX o c xb' (some (n, k)) (xh.erase (n, k)) s1 ∧ ¬ held o s1 n k := by
+    (hxb : xb' = some (n, k) ∨ (n, k) ∈ xh)
+    (hxt : xt' = some (n, k) ∨ ∀ tk tm, (tk, tm) ∈ s.timers → (tm.name, tm.key) ≠ (n, k)) :
+    InvX o c xb' xt' (xh.filter (· ≠ (n, k))) s1 ∧ ¬ held o s1 n k := by
   have hnd : r0.keys.Nodup := by
     have := (h.recs n r0 hg0).nodup; unfold allKeys at this; exact (List.nodup_append.mp this).1
   have hmem : ∀ k', k' ∈ r'.keys ↔ (k' ∈ r0.keys ∧ k' ≠ k) := by
@@ -415,7 +425,7 @@ theorem InvX.unkey (ho : o.Lawful) {xb' xh} {s s1 : St M} (h : InvX o c none non
     have hsub : (allKeys r').Sublist (allKeys r0) := by
       unfold allKeys; rw [hkeys, hq]; exact List.Sublist.append (List.erase_sublist) (List.Sublist.refl _)
     exact ⟨hr0.nodup.sublist hsub, fun k' hk' => hr0.fresh k' (hsub.subset hk')⟩
-  refine ⟨⟨?_, ?_, ?_, ?_, ?_, ?_, ?_, ?_, ?_⟩, ?_⟩
+  refine ⟨⟨?_, ?_, ?_, ?_, ?_, ?_, ?_, ?_, ?_, ?_⟩, ?_⟩
   · intro n' r hg; rw [hl] at hg; rw [hn]
     rcases get_set_cases ho hg with ⟨_, e⟩ | hg'
     · rw [e]; exact hok'
@@ -429,7 +439,9 @@ theorem InvX.unkey (ho : o.Lawful) {xb' xh} {s s1 : St M} (h : InvX o c none non
     refine ⟨e, ?_⟩
     rcases hh with hh | hx
     · by_cases ep : (tm.name, tm.key) = (n, k)
-      · right; rw [ep]
+      · rcases hxt with hxt | hxt
+        · right; rw [hxt, ep]
+        · exact absurd ep (hxt tk tm hm)
       · left; rw [hheld']; exact ⟨hh, ep⟩
     · cases hx
   · intro sid x hb'
@@ -458,7 +470,7 @@ theorem InvX.unkey (ho : o.Lawful) {xb' xh} {s s1 : St M} (h : InvX o c none non
       rw [hsz]
       rcases h.hb hnc n r0 k' hg0 hk1 with hb' | hx
       · exact Or.inl hb'
-      · right; exact (List.mem_erase_of_ne (fun ep => hk2 (congrArg Prod.snd ep))).mpr hx
+      · right; exact mem_filter_ne.mpr ⟨hx, fun ep => hk2 (congrArg Prod.snd ep)⟩
     · rcases h.hb hnc n' r k' hg' hk' with hb' | hx
       · exact Or.inl hb'
       · right
@@ -471,9 +483,12 @@ theorem InvX.unkey (ho : o.Lawful) {xb' xh} {s s1 : St M} (h : InvX o c none non
           subst en
           rw [← hg] at hk'
           exact ((hmem k').mp hk').2 (congrArg Prod.snd ep)
-        · exact (List.mem_erase_of_ne ep).mpr hx
+        · exact mem_filter_ne.mpr ⟨hx, ep⟩
   · intro p hp sid x hb'; rw [hbk] at hb'
-    exact h.xhfree p (List.mem_of_mem_erase hp) sid x hb'
+    exact h.xhfree p (mem_filter_ne.mp hp).1 sid x hb'
+  · intro p hp
+    obtain ⟨hp1, hp2⟩ := mem_filter_ne.mp hp
+    rw [hheld']; exact ⟨h.xhheld p hp1, hp2⟩
   · intro sid; rw [hf, hs]; exact h.fs sid
   · rw [hheld']; exact fun hh => hh.2 rfl
 
@@ -483,7 +498,7 @@ theorem InvX.removeBook {xb xt xh} {s : St M} (h : InvX o c xb xt xh s) {n k : S
     InvX o c none xt xh (removeBook s n k) := by
   have hbk : ∀ sid x, booked (Ldlm.Core.removeBook s n k) sid x ↔ booked s sid x ∧ ¬ (x.name = n ∧ x.key = k) :=
     fun sid x => booked_removeBook s n k sid x
-  refine ⟨h.recs, h.qsize, ?_, ?_, ?_, ?_, ?_, ?_, ?_⟩
+  refine ⟨h.recs, h.qsize, ?_, ?_, ?_, ?_, ?_, ?_, h.xhheld, ?_⟩
   · intro tk tm hm; exact h.timer tk tm hm
   · intro sid x hb'
     rw [hbk] at hb'
@@ -516,7 +531,7 @@ theorem InvX.removeBook {xb xt xh} {s : St M} (h : InvX o c xb xt xh s) {n k : S
 theorem InvX.delTimer {xb xt xh} {s : St M} (h : InvX o c xb xt xh s) (tk : Str)
     (hxt : ∀ p, xt = some p → tkey p.1 p.2 = tk) :
     InvX o c xb none xh { s with timers := AMap.del s.timers tk } := by
-  refine ⟨h.recs, h.qsize, ?_, h.bh, h.u1, h.u2, h.hb, h.xhfree, h.fs⟩
+  refine ⟨h.recs, h.qsize, ?_, h.bh, h.u1, h.u2, h.hb, h.xhfree, h.xhheld, h.fs⟩
   intro tk' tm hm
   obtain ⟨hm', hne⟩ := mem_del hm
   obtain ⟨e, hh⟩ := h.timer tk' tm hm'
@@ -529,6 +544,6 @@ theorem InvX.drop_xh {xb xt xh} {s : St M} (h : InvX o c xb xt xh s) (hnc : c.no
     InvX o c xb xt [] s :=
   ⟨h.recs, h.qsize, h.timer, h.bh, h.u1, h.u2,
    (fun hf => by rw [hnc] at hf; cases hf),
-   (fun p hp => by cases hp), h.fs⟩
+   (fun p hp => by cases hp), (fun p hp => by cases hp), h.fs⟩
 
 end Ldlm.Core
